@@ -907,3 +907,50 @@ func genPruneCrash(r *core.Rand, emit func(class string, line string)) {
 		emit("prune-crash", fmt.Sprintf("C05 db %d 100000000 %s", maxFile, strings.Join(all, " ")))
 	}
 }
+
+// genSyncOrder: block-storing commits under forced flush conditions (flush
+// interval 0 or cache limit 0) with an EMPTY and with a non-empty metadata
+// cache, and after every commit boundary a crash on the adversarial but legal
+// disk: every block file cut back to its last fsynced length.  The reopen must
+// succeed, show some prefix of the commits, and every indexed block must read
+// back intact.
+func genSyncOrder(r *core.Rand, emit func(class string, line string)) {
+	maxFile := int(r.Pick(100, 200, 1000000))
+	maxCache := int(r.Pick(0, 0, 100000000))
+	ncommit := 2 + r.Intn(4)
+	var commits [][]string
+	id := 1
+	for c := 0; c < ncommit; c++ {
+		var ops []string
+		switch r.Intn(4) {
+		case 0:
+			ops = append(ops, "fi:0")
+		case 1:
+			ops = append(ops, "fi:1")
+		}
+		ops = append(ops, "bw:w")
+		if r.Chance(4, 5) {
+			for b := 1 + r.Intn(2); b > 0; b-- {
+				ops = append(ops, fmt.Sprintf("sb:w:%d:%d", id, 1+r.Intn(120)))
+				id++
+			}
+		}
+		if r.Bool() {
+			ops = append(ops, fmt.Sprintf("p:w:.:%02x:%02x", 0x61+c, c))
+		}
+		ops = append(ops, "co:w")
+		commits = append(commits, ops)
+	}
+	first := "fi:0"
+	if r.Chance(1, 3) {
+		first = "fi:1"
+	}
+	for cut := 1; cut <= ncommit; cut++ {
+		all := []string{first}
+		for _, c := range commits[:cut] {
+			all = append(all, c...)
+		}
+		all = append(all, "cps", "du", "bw:w", fmt.Sprintf("sb:w:%d:17", id), "co:w", "du", "cps", "du")
+		emit("sync-order", fmt.Sprintf("C05 db %d %d %s", maxFile, maxCache, strings.Join(all, " ")))
+	}
+}
